@@ -87,6 +87,17 @@ func failFuncs() map[string]jet.Func {
 			panic(fmt.Errorf("wrappedfn: lookup failed: %w", cause))
 		},
 		"apiYield": c18Funcs()["apiYield"],
+		// a helper that changes, in place, the number a variable holds - if the engine hands out something that
+		// can be changed in place (what a variable was initialised from must not change with it)
+		"bump": func(a jet.Arguments) reflect.Value {
+			v := a.Runtime().Resolve(a.Get(0).String())
+			if v.IsValid() && v.CanSet() && v.Kind() == reflect.Float64 {
+				v.SetFloat(v.Float() + 1)
+			} else if v.IsValid() && v.Kind() == reflect.Float64 {
+				a.Runtime().Set(a.Get(0).String(), v.Float()+1)
+			}
+			return reflect.Value{}
+		},
 		// a jet.Func that tolerates whatever it is handed (also an invalid piped value)
 		"passthru": func(a jet.Arguments) reflect.Value {
 			if a.NumOfArguments() > 0 {
@@ -396,6 +407,25 @@ func judgeC13(c c13Case) (v core.Verdict) {
 	}
 	if got.Out != want.Out {
 		v.Failf("%s:\n got  %q\n want %q", desc, got.Out, want.Out)
+		return
+	}
+	// the same execution into a destination that refuses, once, the Write that hands over the output of a try body
+	// (bodies begin with the text "<try>"): a body that finished reaches the writer - or Execute says that it did not
+	p2 := *c.Prog
+	p2.FailOnPrefix = "<try>"
+	got2, _, _ := mj.EngineRun(&p2, failFuncs())
+	switch {
+	case got2.Panicked:
+		v.Failf("%s: with a destination that refuses one Write, Execute panicked: %s", desc, got2.PanicVal)
+	case got2.PanicVal != "refused":
+		if got2.Err != nil || got2.Out != want.Out {
+			v.Failf("%s: second execution (nothing was refused) gave %s, the first one %q", desc, got2, want.Out)
+		}
+	default:
+		v.Label("destination-refused-the-output-of-a-try-body")
+		if got2.Err == nil {
+			v.Failf("%s: the destination refused the Write that handed over the output of a try body, yet Execute returned nil; the destination has %q of %q", desc, got2.Out, want.Out)
+		}
 	}
 	return
 }
